@@ -40,3 +40,4 @@ PROPERTY DF_AffineExact
 PROPERTY DF_Integrate
 PROPERTY DF_SetSub
 PROPERTY DF_QueryPure
+PROPERTY DF_Relabel
